@@ -9,15 +9,28 @@ SPEC = dict(
     rtol=0.0, atol=0.0,
     modes=["", "onecpu"],
     rule="real ParallelExecutor / Parallel2DExecutor / ParallelWorkQueue runs with instrumented user tasks: thread counts "
-         "{1,2,3,4,8} plus a small 16-thread stream, task counts 0..2000 (1-3 execute() calls per executor), grid sizes 0..64, "
-         "all three range types, both Parallel2DExecutor constructors, queue sizes 1..64 with add/flush programs; seeded "
-         "yields/sleeps inside callbacks perturb schedules; mode 'onecpu' simulates a one-processor machine (sysconf "
-         "interposed by the harness); distinct = distinct input records",
-    partial="real thread schedules and the C++ memory model are runtime: the theorems cover every interleaving of the "
-            "modelled atomic steps (sequentially consistent, spurious wake-ups anywhere); unlocked reads of finished / "
-            "taskQueue.empty() in worker loop conditions (F9) are modelled as atomic reads; no_deadlock is proved for "
-            "ParallelExecutor only (ParallelWorkQueue: not covered); the internal partition of Parallel2DExecutor is not "
-            "observable publicly (hook patch in notes/C33_trace_hook.patch), only its consequences are compared",
+         "{1,2,3,4,8}, 16 for all three executors in a guaranteed share, 32 for short ParallelExecutor runs; task counts 0..2000 "
+         "(thorough: up to 10000), 1-3 execute() calls per ParallelExecutor (one per Parallel2DExecutor); grid sizes 0..64 and "
+         "128, small grids 1..12 with sleeping callbacks; all three range types, both Parallel2DExecutor constructors, queue "
+         "sizes 1..64 with add/flush programs; seeded yields/sleeps inside callbacks only; for ParallelExecutor cases with "
+         "<= 400 tasks the callback-level trace (initialize / execute begin+end / finish begin+end / caller's call+return, "
+         "atomic sequence order) is replayed by the Lean driver on the transition system without spurious wake-ups "
+         "(records 'petrace'); mode 'onecpu' simulates a one-processor machine (sysconf interposed by the harness); a "
+         "watchdog turns a hang (30 s) into P no_deadlock; distinct = distinct input records",
+    partial="PROVED about the executed models for every thread count / task count / level / grid size and every schedule "
+            "(spurious wake-ups anywhere): index partition, quadtree coverage and conflict freedom, exactly-once, "
+            "init/finish order, finish mutual exclusion, return-after-all, no_deadlock (enabledness, no fairness statement) "
+            "for ParallelExecutor AND ParallelWorkQueue. TIE of the protocol models to the C++: by reading, by the exact "
+            "O-lines, and (ParallelExecutor only) by trace inclusion at CALLBACK granularity: every logged run must be a run of "
+            "the transition system; lock / wait / notify events inside the library are NOT observed (the add-only hook "
+            "notes/C33_trace_hook.patch is not applied; if it is, the harness additionally compares binStart and the squares "
+            "of every pass with the model's plan, records 'p2dplan'). No trace validation for ParallelWorkQueue and for the "
+            "passes inside Parallel2DExecutor. Perturbation happens only inside user callbacks, not in the library's own "
+            "windows (between unlock and isFinished(), between running=false and incrementWaitingThreads, between pop and "
+            "notify). NOT BUILT: ThreadSanitizer tier / race detector, forced schedules. Real schedulers and the C++ memory "
+            "model are runtime; the unlocked reads of finished / taskQueue.empty() in worker loop conditions (F9) are "
+            "modelled as sequentially consistent atomic reads; Parallel2DExecutor conflict freedom of the REAL partition is "
+            "observed only through the in-flight counters (sleeping callbacks for grids <= 12) unless the hook is applied",
     assumptions=["std::mutex / std::condition_variable have monitor semantics with spurious wake-ups (trusted base item 7)",
-                 "one producer thread uses a ParallelWorkQueue (the documented usage)"],
+                 "one producer thread uses a ParallelWorkQueue (the documented usage)", "ParallelWorkQueue queueSize >= 1, >= 1 worker"],
 )
